@@ -7,7 +7,17 @@ and groups of instances (equal spelling, permuted containers, numerically equal 
 Python type, near misses).  Violation search: the clauses of the statement evaluated directly on the
 implementation (reflexive/symmetric/transitive, field-wise agreement, eq => equal hash and collapse
 in set/dict, copies equal with equal hash, copies independent under mutation histories and
-validated like a regularly constructed instance)."""
+validated like a regularly constructed instance).
+
+Independence of copies is additionally checked on the OBJECT GRAPH (harness/c11graph.py): no mutable object
+may be reachable from both an instance and its deep / unpickled copy (wrapper -> owner edges included); a
+shared object is reported only after an actual change of it through its own public interface, reached from
+one instance, was observed to change the other.  Inputs: every generated instance, and a deterministic
+lattice of value shapes (chains of tuple / list / deque / dict / set / frozenset ending in a nested Structure
+or in numbers, held by a typed field, an Anything field, an undeclared attribute).  The observed graphs are
+also emitted as Gallina literals: inside Coq the model's deepcopy (Struct/CopyHeap.v, under the copy policy
+re-read from the source, Gen/CopySites.v) must yield the same value and share the same mutable objects as
+the observed copy, and the separation clause is evaluated on the observed graph (Check/C11heapchk.v)."""
 import collections
 import copy
 import decimal
@@ -23,6 +33,7 @@ from harness import core
 from harness import coqemit as E
 from harness import fieldgen as G
 from harness import structgen as S
+from harness import c11graph as CG
 
 DYN = "harness_c11_dyn"
 
@@ -159,12 +170,56 @@ def gen_class(rnd, name, idx):
     if rnd.random() < 0.3:
         extra.append({"name": "m_", "field": {"t": "mapkv", "kf": {"t": "str"},
                                               "vf": {"t": "num", "k": "Number", "s": "Any"}, "sz": [None, None]}})
+    if rnd.random() < 0.4:
+        # a typed declaration whose values nest mutable objects inside immutable / other containers
+        chain, leaf = rnd.choice(RICH_TYPED)
+        extra.append({"name": "t_", "field": CG.shape_field(chain, leaf)})
     c["fields"] += extra
     if extra and c.get("required") is None and rnd.random() < 0.7:
         c["required"] = sorted(rnd.sample([f["name"] for f in c["fields"]], rnd.randint(0, 2)))
     if rnd.random() < 0.25:
         c["undefined"] = True
+    if not immutable and rnd.random() < 0.25:
+        # inherited (and possibly redeclared) fields: __eq__ / __getstate__ must see the fields of every base
+        c["base"] = rnd.choice(["Inner", "Sub", "Other"])
     return c
+
+
+def all_fields_view(c, ctx):
+    """The class AST with the fields and required names of the whole inheritance chain (for generating
+    arguments); the AST itself (with its base) is what replays and class sources use."""
+    if not c.get("base"):
+        return c
+    v = dict(c)
+    v["fields"] = ctx.all_fields(c["name"])
+    v["required"] = ctx.resolved(c["name"])["required"]
+    return v
+
+
+RICH_SHAPES = [sh for sh in CG.shapes(2) if sh[0]]
+
+
+def _has_raw(f):
+    if f.get("t") == "raw":
+        return True
+    return any(_has_raw(g) for key in ("item", "kf", "vf") for g in [f.get(key)] if isinstance(g, dict)) or \
+        any(_has_raw(g) for key in ("items", "fs") for g in (f.get(key) or []))
+
+
+# typed declarations that can be emitted as a model classdef (the subscript form Tuple[Inner] cannot)
+RICH_TYPED = [sh for sh in RICH_SHAPES if not _has_raw(CG.shape_field(*sh))]
+
+
+def rich_value(rnd):
+    """A nested value with mutable objects inside (for Anything fields and undeclared attributes)."""
+    chain, leaf = rnd.choice(RICH_SHAPES)
+    return CG.shape_value(chain, leaf, rnd.randint(0, 3))
+
+
+def enrich(rnd, c, kw):
+    """Values of Anything fields replaced (half of the time) by nested values holding mutable objects."""
+    anys = {fd["name"] for fd in c["fields"] if fd["field"]["t"] == "any"}
+    return [(k, rich_value(rnd) if (k in anys and rnd.random() < 0.5) else v) for k, v in kw]
 
 
 # ------------------------------------------------------------------ variants of a kwargs list
@@ -252,7 +307,7 @@ def gen_group(rnd, c, ctx):
         made = S.make_valid_instance(rnd, c, ctx)
         if made is None:
             continue
-        kw = made[0]
+        kw = enrich(rnd, c, made[0])
         if any(has_other(v) for _, v in kw) or try_build(cls, kw, ctx) is None:
             continue
         break
@@ -305,7 +360,8 @@ def gen_group(rnd, c, ctx):
             if try_build(cls, nk2, ctx) is not None:
                 out.append(("none-set", nk2))
     if c.get("additional") and rnd.random() < 0.6:
-        ek = kw + [("extra_1", rnd.choice([("int", 3), ("str", "x"), ("list", [("int", 1), ("int", 2)])]))]
+        ek = kw + [("extra_1", rnd.choice([("int", 3), ("str", "x"), ("list", [("int", 1), ("int", 2)]),
+                                           rich_value(rnd), rich_value(rnd)]))]
         if try_build(cls, ek, ctx) is not None:
             out.append(("extra", ek))
             out.append(("extra-same", ek))
@@ -875,13 +931,23 @@ def emit_inst(st):
 
 
 HEADER = """From Coq Require Import ZArith NArith String List Bool. Import ListNotations.
-From TP Require Import Check.C11chk.
+From TP Require Import Check.C11chk Check.C11heapchk.
 Local Open Scope string_scope.
 """
 
 P_FUNCS = ("p_eq_mismatch", "p_str_mismatch", "p_hash_mismatch", "p_predicted_incoherent", "p_canonical",
            "p_spec_fail_canonical", "p_dom")
-C_FUNCS = ("c_mismatch", "c_predicted_lossy")
+C_FUNCS = ("c_mismatch_gen", "c_predicted_lossy")     # pickle: under the __getstate__ policy read from the source
+
+
+def eval_retry(shards, tag, header):
+    """core.eval_cases; a shard whose coqc died without a Coq error (killed by the OOM killer / timeout of an
+    overloaded machine) is evaluated once more on its own."""
+    res = core.eval_cases(shards, tag, header)
+    for i, (rc, so, se) in enumerate(res):
+        if rc != 0 and "Error" not in (so + se):
+            res[i] = core.eval_cases([shards[i]], tag + "r%d" % i, header)[0]
+    return res
 
 
 def evaluate(groups, ctx, tag="c11"):
@@ -890,7 +956,7 @@ def evaluate(groups, ctx, tag="c11"):
     shards, cur, npairs = [], [], 0
     layout = []
     for g in groups:
-        if npairs + len(g["pairs"]) > 380 and cur:
+        if npairs + len(g["pairs"]) > 270 and cur:
             shards.append(cur)
             cur, npairs = [], 0
         cur.append(g)
@@ -923,7 +989,7 @@ def evaluate(groups, ctx, tag="c11"):
         for fn in C_FUNCS:
             body.append("Eval vm_compute in (indices_where %s ccases 0)." % fn)
         texts.append(("\n".join(body) + "\n", pl, cl))
-    res = core.eval_cases([t for t, _, _ in texts], tag, HEADER)
+    res = eval_retry([t for t, _, _ in texts], tag, HEADER)
     pout = {fn: [] for fn in P_FUNCS}
     cout = {fn: [] for fn in C_FUNCS}
     pflat, cflat = [], []
@@ -939,6 +1005,219 @@ def evaluate(groups, ctx, tag="c11"):
         cflat += cl
     return pout, cout, pflat, cflat
 
+
+
+# ------------------------------------------------------------------ object graphs: what a copy shares with its original
+
+HEADER_H = """From Coq Require Import ZArith NArith String List Bool. Import ListNotations.
+From TP Require Import Check.C11heapchk.
+Local Open Scope string_scope.
+"""
+H_FUNCS = ("h_dom", "h_mismatch", "h_spec_fail", "h_predicted_shared")
+GRAPH_KINDS = ("deepcopy", "pickle", "copy")
+
+
+def sharing_python(c, ctx, kw, kind):
+    return python_src(c, ctx, [kw], "y = %s\n# every mutable object reachable from y must be unreachable from x0\n" % {
+        "copy": "copy.copy(x0)", "deepcopy": "copy.deepcopy(x0)", "pickle": "pickle.loads(pickle.dumps(x0))"}[kind])
+
+
+def sharing_check(rep, stream, c, ctx, kw, hcases, shape_key):
+    """The separation clause on one instance, for each kind of copy; observed graphs are queued for Coq."""
+    cls = ctx.classes[c["name"]]
+    build = lambda: cls(**S.realize_kwargs(kw, ctx))
+    for kind in GRAPH_KINDS:
+        if kind == "copy":
+            # shallow copies share their attribute values by design: outside the independence claim; the graph is
+            # kept for the correspondence with the model's copy_shallow
+            try:
+                x = build()
+                y = copy.copy(x)
+            except Exception:  # noqa
+                continue
+            if y is x:
+                continue
+            fails, stats, gt = [], [], CG.graph_of(x, y)
+            rep.stat(stream, "copy:" + ("shares-mutable" if CG.shared_mutable(*gt) else "shares-nothing-mutable"))
+        else:
+            try:
+                fails, stats, gt = CG.sharing_fails(build, kind, public_state)
+            except (pickle.PicklingError, TypeError, AttributeError):
+                if kind == "pickle":
+                    rep.stat(stream, "pickle:unpicklable")
+                    continue
+                raise
+            rep.count(stream, 1, (kind, shape_key, bool(fails)))
+            for st in stats:
+                rep.stat(stream, kind + ":" + st)
+            for key, what in fails:
+                rep.stat(stream, kind + ":" + key)
+                rep.finding("C11/independence/%s/%s" % (kind, key), what,
+                            {"class": c, "kwargs": [kw], "scenario": "sharing", "copy": kind,
+                             "python": sharing_python(c, ctx, kw, kind)})
+        if gt is not None:
+            if gt[2][0] != "ref":
+                rep.stat(stream, "immutable-instance(a value, no graph)")
+            elif CG.has_opaque(gt[0], reify_val):
+                rep.stat(stream, "graph-outside-model-domain")
+            else:
+                hcases.append({"kind": kind, "gt": gt, "class": c, "kw": kw, "flagged": bool(fails),
+                               "unobservable": any(s.startswith("shared-but-no-observable-effect") for s in stats)})
+
+
+def deep_lockstep_check(rep, stream, c, ctx, kw, shape_key):
+    """Lock-step changes of EVERY mutable object reachable from the copy (any depth) against a regularly
+    constructed instance; the unpickled copy gets the two internal attributes __getstate__ drops put back
+    first (their loss is the known finding C11-unpickled-lost-internal-state, detected by the histories)."""
+    cls = ctx.classes[c["name"]]
+    build = lambda: cls(**S.realize_kwargs(kw, ctx))
+    for kind in ("deepcopy", "pickle"):
+        try:
+            res = CG.deep_lockstep(build, kind, public_state, same_outcome, repaired if kind == "pickle" else None)
+        except (pickle.PicklingError, TypeError, AttributeError) as ex:
+            if kind == "pickle" and not _picklable(cls, kw, ctx):
+                continue
+            res = [("harness-raises:" + type(ex).__name__, "inst", [], repr(ex))]
+        except Exception as ex:  # noqa
+            res = [("harness-raises:" + type(ex).__name__, "inst", [], repr(ex))]
+        rep.count(stream, 1, (kind, "deep", shape_key, bool(res)))
+        rep.stat(stream, kind + ":deep-lockstep:" + ("diverges" if res else "ok"))
+        for sym, k, path, what in res:
+            key = "independence/%s/deep:%s:%s" % (kind, sym, k)
+            if kind == "pickle" and sym == "initial-state-differs":
+                x = build()
+                lost = [a for a, _ in inst_state(x)[2] if a not in dict(inst_state(CG.make_copy(kind, x))[2])]
+                fields = set(cls.get_all_fields_by_name().keys())
+                if lost and all(a not in fields for a in lost):
+                    key = "pickle/extra-attrs-lost"
+            if kind == "deepcopy" and sym == "initial-state-differs":
+                x0 = build()
+                key = "copy/deepcopy/state-differs:" + diag_deepcopy_state(x0, copy.deepcopy(x0), c)
+            rep.finding("C11/" + key, what, {"class": c, "kwargs": [kw], "scenario": "deep-lockstep", "copy": kind,
+                                             "python": sharing_python(c, ctx, kw, kind)})
+
+
+def lattice_stream(rep, tier, hcases):
+    """Deterministic enumeration: every chain (length <= 3, thorough 4) of tuple / list / deque / dict value /
+    set / frozenset ending in a nested mutable Structure or in numbers, held by a typed field, an Anything
+    field, an undeclared attribute."""
+    depth = 3 if tier == "quick" else 4
+    n = 0
+    for chain, leaf in CG.shapes(depth):
+        for holder, c, kw in CG.lattice_classes(chain, leaf):
+            try:
+                ctx = make_ctx([c])
+                cls = ctx.classes[c["name"]]
+                cls(**S.realize_kwargs(kw, ctx))
+            except Exception:  # noqa  (e.g. a typed Set of unhashable items)
+                rep.stat("sharing-lattice", "declaration-or-value-rejected:" + holder)
+                continue
+            rep.stat("sharing-lattice", "holder:" + holder)
+            rep.stat("sharing-lattice", "depth:%d/leaf:%s" % (len(chain), leaf))
+            # the Coq side of the deepest level is sampled (every 3rd case): the Python clause sees all
+            n += 1
+            keep = [] if (len(chain) >= 4 and n % 3) else hcases
+            sharing_check(rep, "sharing-lattice", c, ctx, kw, keep, (holder, chain, leaf))
+            deep_lockstep_check(rep, "sharing-lattice", c, ctx, kw, (holder, chain, leaf))
+
+
+def evaluate_heaps(hcases, tag="c11h"):
+    """-> ({fn: [indices]}, policy facts dict)."""
+    shards = []
+    per = 170
+    for i in range(0, len(hcases), per):
+        body = ["Definition hcases : list hcase := %s." % E.lst(
+            ["\n " + CG.emit_hcase(h["kind"], h["gt"], reify_val) for h in hcases[i:i + per]])]
+        for fn in H_FUNCS:
+            body.append("Eval vm_compute in (indices_where %s hcases 0)." % fn)
+        shards.append("\n".join(body) + "\n")
+    shards.append("Eval vm_compute in policy_readable.\nEval vm_compute in policy_is_safe.\n"
+                  "Eval vm_compute in policy_unsafe_types.\nEval vm_compute in copy_sites.\n"
+                  "Eval vm_compute in state_policy_is_safe.\nEval vm_compute in state_sites.\n"
+                  "Eval vm_compute in copy_is_dict_update.\n")
+    res = eval_retry(shards, tag, HEADER_H)
+    out = {fn: [] for fn in H_FUNCS}
+    for si, (rc, so, se) in enumerate(res[:-1]):
+        vals = core.parse_eval(so)
+        if rc != 0 or len(vals) != len(H_FUNCS):
+            raise RuntimeError("graph shard %d failed to evaluate: %s" % (si, (so + se)[-1500:]))
+        for fn, v in zip(H_FUNCS, vals):
+            out[fn] += [si * per + i for i in core.parse_nat_list(v)]
+    rc, so, se = res[-1]
+    vals = core.parse_eval(so)
+    if rc != 0 or len(vals) != 7:
+        raise RuntimeError("policy facts failed to evaluate: %s" % (so + se)[-1500:])
+    pol = {"readable": vals[0].strip() == "true", "safe": vals[1].strip() == "true",
+           "unsafe_types": [t for t in vals[2].replace("[", " ").replace("]", " ").replace(";", " ").split() if t.startswith("T")],
+           "policy": vals[3], "state_safe": vals[4].strip() == "true", "state_policy": vals[5],
+           "copy_dict_update": vals[6].strip() == "true"}
+    return out, pol
+
+
+def graph_obligations(rep, hcases):
+    """Correspondence of the model's copy with the observed graphs, the separation clause evaluated in Coq,
+    and the facts about the copy policy read from the source."""
+    hout, pol = evaluate_heaps(hcases)
+    s = rep.cov["streams"].setdefault("graphs", {"evaluations": 0})
+    s["evaluations"] = len(hcases)
+    s["theorem_hypotheses_hold(closed, immutable-opaque)"] = len(hout["h_dom"])
+    s["model_predicts_shared_mutable"] = len(hout["h_predicted_shared"])
+    s["observed_shared_mutable"] = len(hout["h_spec_fail"])
+    s["copy_policy_from_source"] = pol["policy"]
+    by_kind = {}
+    for h in hcases:
+        by_kind[h["kind"]] = by_kind.get(h["kind"], 0) + 1
+    s["dist"] = {"kind:" + k: v for k, v in by_kind.items()}
+    concrete = any(not v["no_input"] for v in rep.violations)
+    rep.obligation("tables:copy-policy-readable", pol["readable"], pol["policy"][:250])
+    rep.obligation("tables:copy-policy-safe", pol["safe"],
+                   "re-used types that can hold mutable objects: %s" % (pol["unsafe_types"] or "none"))
+    rep.obligation("tables:getstate-policy-keeps-every-stored-field", pol["state_safe"], pol["state_policy"][:200])
+    rep.obligation("tables:copy-is-dict-update", pol["copy_dict_update"], "")
+    s["getstate_policy_from_source"] = pol["state_policy"]
+    if not pol["state_safe"] and not concrete:
+        rep.broken("tables:getstate-policy",
+                   "Structure.__getstate__ no longer reads as `every field of the inheritance chain that is present in __dict__, "
+                   "with its stored value` (Gen/CopySites.v: %s); no unequal unpickled copy was found on any generated input" % pol["state_policy"],
+                   {"policy": pol["state_policy"]})
+    if not pol["readable"] and not concrete:
+        rep.broken("tables:copy-policy-readable",
+                   "harness/genmods/copy_sites.py no longer recognises the shape of Structure.__deepcopy__ or of a wrapper's "
+                   "__deepcopy__ (Gen/CopySites.v has UnknownPol): the model cannot follow the code; no shared mutable object "
+                   "was found on any lattice or generated input", {"policy": pol["policy"]})
+    elif not pol["safe"] and not concrete:
+        rep.broken("tables:copy-policy-safe",
+                   "the copy routines re-use values of %s (C11_unsafe_policy_witness applies to the MODEL); the witness shapes "
+                   "are part of the lattice, and no shared mutable object was observed on the implementation" % pol["unsafe_types"],
+                   {"policy": pol["policy"]})
+    if len(hout["h_dom"]) < 0.9 * max(1, len(hcases)):
+        rep.broken("correspondence:graph-domain", "%d of %d observed graphs fall outside the model's domain: inconclusive" % (
+            len(hcases) - len(hout["h_dom"]), len(hcases)))
+    bad = hout["h_mismatch"]
+    if bad and os.environ.get("C11_DEBUG"):
+        for b in bad[:8]:
+            h = hcases[b]
+            print("DEBUG graph", h["kind"], S.class_src(h["class"]), h["kw"], CG.emit_hcase(h["kind"], h["gt"], reify_val), sep="\n   ")
+    rep.obligation("correspondence:copy-graphs(value, shared mutable objects)", not bad,
+                   "%d observed graphs, %d mismatches" % (len(hcases), len(bad)))
+    if bad and not concrete:
+        h = hcases[bad[0]]
+        rep.broken("correspondence:copy-graphs",
+                   "the model's %s (under the policy read from the source) and the real one differ in value or in the mutable "
+                   "objects shared with the original on %d observed graphs; no clause of C11 failed on any explored input" % (
+                       h["kind"], len(bad)),
+                   {"class": h["class"], "kwargs": [h["kw"]], "scenario": "sharing", "copy": h["kind"]})
+    # the separation clause evaluated in Coq on the observed graph must agree with the evaluation done in Python
+    disagree = [i for i in hout["h_spec_fail"] if not (hcases[i]["flagged"] or hcases[i]["unobservable"])]
+    rep.obligation("spec-on-observed:C11_deepcopy_separated", not [i for i in hout["h_spec_fail"] if hcases[i]["flagged"]],
+                   "%d observed deep / unpickled copies, %d share a mutable object with the original (%d of them with no "
+                   "observable effect)" % (sum(1 for h in hcases if h["kind"] != "copy"), len(hout["h_spec_fail"]),
+                                           sum(1 for i in hout["h_spec_fail"] if hcases[i]["unobservable"] and not hcases[i]["flagged"])))
+    if disagree:
+        h = hcases[disagree[0]]
+        rep.broken("evaluators:separation", "separatedb (Coq) reports sharing on %d observed graphs on which the Python walk "
+                   "found none" % len(disagree), {"class": h["class"], "kwargs": [h["kw"]], "scenario": "sharing", "copy": h["kind"]})
+    return pol
 
 # ------------------------------------------------------------------ replay
 
@@ -962,6 +1241,25 @@ def replay(obj):
         fails, _, strs, hs = check_group(insts, [])
         for s, h in zip(strs, hs):
             print("instance :", s, " hash", h)
+    elif obj.get("scenario") == "sharing":
+        build = lambda: cls(**S.realize_kwargs(kws[0], ctx))
+        print("class    :", S.class_src(c))
+        print("instance :", build(), "\ncopy     :", obj["copy"])
+        got, stats, _ = CG.sharing_fails(build, obj["copy"], public_state)
+        fails = [("independence/%s/%s" % (obj["copy"], k), w, {}) for k, w in got]
+        for st in stats:
+            print("graph    :", st)
+        print("required : no mutable object reachable from both the original and its", obj["copy"])
+    elif obj.get("scenario") == "deep-lockstep":
+        build = lambda: cls(**S.realize_kwargs(kws[0], ctx))
+        print("class    :", S.class_src(c))
+        print("instance :", build(), "\ncopy     :", obj["copy"])
+        rr = core.Report("C11", "quick")
+        rr.known = []
+        deep_lockstep_check(rr, "replay", c, ctx, kws[0], ())
+        fails = [(v["key"].split("/", 1)[1], v["what"], {}) for v in rr.violations]
+        print("required : every mutable object reachable from the", obj["copy"], "behaves like the one at the same place of a "
+              "regularly constructed instance, and the original does not change")
     elif obj.get("scenario") == "copy":
         x = cls(**S.realize_kwargs(kws[0], ctx))
         fails, y = check_copy(obj["copy"], x, c)
@@ -1002,17 +1300,39 @@ def _tuplify(v):
 
 # ------------------------------------------------------------------ run
 
+def _tick(label, t=[None]):
+    if os.environ.get("C11_TIMING"):
+        import time
+        now = time.time()
+        if t[0] is not None:
+            print("TIMING %-28s %.1fs" % (label, now - t[0]))
+        t[0] = now
+
+
 def run(rep, tier):
+    _tick("start")
     rnd = random.Random(core.seed() * 1000003 + 11)
     nclasses = 110 if tier == "quick" else 900
     nhist = 2 if tier == "quick" else 5
-    proofs_ok, model_ok = core.standard_proof_obligations(rep, "C11", ["theories/Check/C11chk.vo"])
+    proofs_ok, model_ok = core.standard_proof_obligations(rep, "C11", ["theories/Check/C11chk.vo",
+                                                                                   "theories/Check/C11heapchk.vo"])
     rep.assumptions += [
         "str() of numbers, repr() of str and of enum values are oracles (Section variables), instantiated per case from CPython",
         "str.__hash__ is uninterpreted (Section variable str_hash): hash agreement is decided through equality of the string form",
         "model values are finite data without nan/inf and arbitrary objects; Decimal exponent spelling (1.0 vs 1) is not represented",
         "nested Structure values compare by py_eq (no explicit None attribute inside nested instances)",
+        "object graphs: an ImmutableStructure is a value (what is behind it cannot change: C04); the scratch Structure() a "
+        "nested wrapper is bound to is not part of the graph; CPython's deepcopy of built-in containers is modelled "
+        "(new object, children copied, an unchanged tuple returned itself), sharing preserved by the memo INSIDE one "
+        "instance is not (tree copy)",
+        "client operations in C11_separated_frames: allocation, in-place replacement of the children of a mutable object "
+        "the client can reach, keeping a reference - every list/dict/set/deque/wrapper method and setattr/delattr is a "
+        "sequence of these",
     ]
+    _tick("proof obligations")
+    hcases = []
+    lattice_stream(rep, tier, hcases)
+    _tick("lattice")
     asts = [gen_class(rnd, "K%d" % i, i) for i in range(nclasses)]
     # realise one by one first so that a rejected declaration does not poison the rest
     keep = []
@@ -1028,10 +1348,12 @@ def run(rep, tier):
     groups = []
     for c in keep:
         cls = ctx.classes[c["name"]]
-        kws = gen_group(rnd, c, ctx)
+        kws = gen_group(rnd, all_fields_view(c, ctx), ctx)
         if not kws:
             rep.stat("classes", "no-valid-instance")
             continue
+        if c.get("base"):
+            rep.stat("classes", "inherits:" + c["base"])
         labels = [l for l, _ in kws]
         insts = [cls(**S.realize_kwargs(kw, ctx)) for _, kw in kws]
         fails, eq, strs, hs = check_group(insts, labels)
@@ -1074,6 +1396,12 @@ def run(rep, tier):
                                                              "pickle": "pickle.loads(pickle.dumps(x0))"}[kind])))
                 if y is not None:
                     copies.append((kind, i, inst_state(y)))
+        # what the copies share with the original (object graph)
+        for i in sorted(set([0] + [k for k, l in enumerate(labels) if l in ("extra", "permuted", "changed")][:2])):
+            sharing_check(rep, "sharing-generated", c, ctx, kws[i][1], hcases,
+                          (labels[i], tuple(sorted(f["field"]["t"] for f in c["fields"]))))
+            deep_lockstep_check(rep, "sharing-generated", c, ctx, kws[i][1],
+                                (labels[i], tuple(sorted(f["field"]["t"] for f in c["fields"]))))
         # mutation histories on the copies
         for kind in ("deepcopy", "pickle", "copy"):
             for _ in range(nhist if kind != "copy" else 1):
@@ -1105,9 +1433,11 @@ def run(rep, tier):
         rep.sample({"class": S.class_src(g["ast"]), "instances": g["strs"][:4]})
     if len(groups) < nclasses * 0.5:
         rep.broken("generator:classes", "only %d of %d generated classes yielded a valid instance: inconclusive" % (len(groups), nclasses))
+    _tick("generated classes")
     if model_ok and groups:
         try:
             pout, cout, pflat, cflat = evaluate(groups, ctx)
+            _tick("coq pairs/copies")
         except RuntimeError as ex:
             rep.broken("correspondence:coq-eval", str(ex))
             pout = None
@@ -1145,7 +1475,7 @@ def run(rep, tier):
             rep.obligation("spec-on-observed:C11_hash_char", not pout["p_spec_fail_canonical"],
                            "%d canonical pairs, %d observed equal with different hash" % (
                                len(pout["p_canonical"]), len(pout["p_spec_fail_canonical"])))
-            allbad = cout["c_mismatch"]
+            allbad = cout["c_mismatch_gen"]
             # a copy on which a clause of the property fails (reported above) is not a modelling error
             bad = [b for b in allbad if (cflat[b][1], cflat[b][2]) not in cflat[b][0]["flagged"]]
             rep.obligation("correspondence:copy/deepcopy/pickle", not bad,
@@ -1157,6 +1487,12 @@ def run(rep, tier):
                            "the model's %s and the real one yield different states on %d cases" % (kind, len(bad)),
                            {"class": g["ast"], "kwargs": [g["kws"][i][1]], "scenario": "copy", "copy": kind,
                             "python": python_src(g["ast"], ctx, [g["kws"][i][1]])})
+    if model_ok and hcases:
+        try:
+            graph_obligations(rep, hcases)
+            _tick("coq graphs")
+        except RuntimeError as ex:
+            rep.broken("correspondence:coq-eval-graphs", str(ex))
     if not proofs_ok:
         from harness.props.c17 import broken_build
         broken_build(rep)
@@ -1165,5 +1501,12 @@ def run(rep, tier):
              "properties / __validate__ hooks): a group of valid instances = base, same spelling, permuted container contents, "
              "numerically equal values of another type, changed / dropped / None-set / extra attributes; every ordered pair is "
              "a case; copies (copy, deepcopy, pickle) of selected instances; mutation histories (setattr + wrapper mutators, "
-             "valid and invalid arguments) on deep / unpickled copies in lockstep with a regular instance; distinct = distinct "
-             "(variant labels, eq, hash-eq, field kinds); identical pairs (i = i) are not counted as non-trivial")
+             "valid and invalid arguments) on deep / unpickled copies in lockstep with a regular instance; Anything fields and "
+             "undeclared attributes hold nested values with mutable objects inside half of the time, a quarter of the classes "
+             "inherit from Inner/Sub/Other; object graphs (by id()) of selected instances and of their copy/deepcopy/pickle copies: "
+             "no mutable object reachable from both (confirmed by an actual change through the shared object's interface), "
+             "lock-step changes of every reachable mutable object against a regular instance, graphs emitted to Coq; the same on a "
+             "deterministic lattice of value shapes (chains up to length 3, thorough 4, of tuple/list/deque/dict/set/frozenset "
+             "ending in a nested Structure or numbers, held by a typed field / an Anything field / an undeclared attribute); "
+             "distinct = distinct (variant labels, eq, hash-eq, field kinds) resp. (copy kind, holder, shape, outcome); identical "
+             "pairs (i = i) are not counted as non-trivial")
